@@ -39,8 +39,8 @@ LEVEL_NOTE = ("the text model is hand-written and tied by correspondence (c19_te
               "modelled since round 5 (csv.reader's state machine, Model/PersistText, proved inverse to the csv writer); not "
               "modelled: csv quoting in JMA files (';' dialect), '#' "
               "comments, the 'data used' regex of NDK line 2, case-insensitive strptime literals, %z with seconds; NDK "
-              "magnitude (2/3*(log10(M0)-9.1)) is transcendental: the model yields the scalar moment, log10 is applied in "
-              "Python (1e-9); JMA: the float path "
+              "magnitude 2/3*(log10(M0)-9.1) is in the model's real layer since round 6 (Model/NdkMagnitude: Float in the "
+              "driver, compared to 1e-9; at R: strictly increasing, injective, +2/3 per decade of the exponent); JMA: the float path "
               "round(1000.*ts) is transcribed in Soft64 and proved to return the written millisecond for ms-resolution times "
               "with |t| < 2^43 ms; for microsecond-resolution times the theorems use exact nearest-ms rounding and the harness "
               "checks on every record that the float path differs from it only on exact half-ms ties (either neighbour allowed).")
@@ -66,7 +66,11 @@ THEOREMS = ["Readers.decode_encode_csep", "Readers.decode_encode_zmap", "Readers
             "ReaderText.split_ws_join", "ReaderText.split_on_join", "ReaderText.zmap_file_refines_tokens",
             "ReaderText.zmap_file_one_event_per_record", "ReaderText.numericTable_of_fields",
             "ReaderText.horus_file_refines_tokens", "ReaderText.horus_file_one_event_per_record",
-            "ReaderText.jma_file_refines_tokens", "ReaderText.jma_file_one_event_per_record"]
+            "ReaderText.jma_file_refines_tokens", "ReaderText.jma_file_one_event_per_record",
+            # round 6 (Properties/C19_Ndk.lean): the NDK loop with skipped records, the moment magnitude
+            "ReaderText.ndk_file_loop", "ReaderText.ndk_skipped_records_leave_no_trace", "ReaderText.mwOf_real",
+            "ReaderText.mw_strict_mono", "ReaderText.mw_injective", "ReaderText.mw_decade", "ReaderText.mw_reference",
+            "ReaderText.ndk_file_mw_one_event_per_record"]
 TRUSTED = ["Lean 4.33 kernel", "axioms: propext, Classical.choice, Quot.sound at most",
            "tokenisation (csv.reader, numpy.loadtxt, numpy.genfromtxt incl. '2017.0000000000' -> int32, NDK fixed-column "
            "slices, float(), int(), datetime.strptime field matching) is MODELLED in Model/ReaderText.lean since wave 4 and "
@@ -539,7 +543,13 @@ HOWS = ["type",                  # csep.load_catalog(path, type=fmt)
         "pathlib",               # csep.load_catalog(pathlib.Path(path), type=fmt)
         "kwargs",                # ..., name=..., compute_stats=False, region=None, metadata={}
         "apply-filters",         # ..., apply_filters=True, filters=[a statement every event satisfies]
-        "apply-filters-str"]     # ..., apply_filters=True, filters='magnitude >= -1000'
+        "apply-filters-str",     # ..., apply_filters=True, filters='magnitude >= -1000'
+        # round 6: every argument both ways, overriding subclasses, warnings as errors
+        "positional",            # csep.load_catalog(path, fmt, 'native', None, False)        (all arguments positional)
+        "keyword-filename",      # csep.load_catalog(filename=path, type=fmt, format='native', loader=None, apply_filters=False)
+        "subclass",              # class Sub(CSEPCatalog): pass ; Sub.load_catalog(path, loader=readers.X) -> a Sub
+        "subclass-kw",           # Sub.load_catalog(filename=path, loader=readers.X, name=...)
+        "warnings-error"]        # csep.load_catalog(path, type=fmt) with warnings (except deprecation notices) as exceptions
 HOWS_NDK = ["ndk-stringio", "ndk-bytesio", "ndk-open-text", "ndk-open-binary", "ndk-text-data", "ndk-bytes-data"]
 AWAITING_DECISION = ["custom-type-string-with-loader"]   # load_catalog(f, type='mine', loader=fn): KeyError 'mine' (see notes); not exercised
 
@@ -566,6 +576,9 @@ def _accessors(c, rows):
         if dts[k].replace(tzinfo=None) != want:
             return f"get_datetimes()[{k}] = {dts[k]} for origin_time {rows[k][0]}"
     return None
+
+
+_NOTES = []      # observations of _loaded that are not verdicts (drained into the histogram by check_case)
 
 
 def _loaded(path, fmt, zone=None, how="type", other=None):
@@ -606,6 +619,35 @@ def _loaded(path, fmt, zone=None, how="type", other=None):
                 c = csep.load_catalog(path, type=fmt, apply_filters=True, filters=["magnitude >= -1000.0", "depth < 1e9"])
             elif how == "apply-filters-str":
                 c = csep.load_catalog(path, type=fmt, apply_filters=True, filters="magnitude >= -1000.0")
+            elif how == "positional":
+                c = csep.load_catalog(path, fmt, "native", None, False)
+            elif how == "keyword-filename":
+                c = csep.load_catalog(filename=path, type=fmt, format="native", loader=None, apply_filters=False)
+            elif how in ("subclass", "subclass-kw"):
+                class Sub(CSEPCatalog):          # a user's catalog class: inherits everything
+                    pass
+                c = Sub.load_catalog(path, loader=rd) if how == "subclass" else \
+                    Sub.load_catalog(filename=path, loader=rd, name="sub-" + fmt)
+                if type(c) is not Sub:       # which class comes back is not the property's business (events are): counted
+                    _NOTES.append("subclass.load_catalog returned " + type(c).__name__)
+                if how == "subclass-kw" and c.name != "sub-" + fmt:
+                    return f"err:KwargLost:name={c.name!r}"
+            elif how == "warnings-error":
+                import warnings
+                with warnings.catch_warnings():
+                    warnings.simplefilter("error")
+                    # pyCSEP itself calls datetime.utcnow() (deprecated): deprecation notices are not the readers' business
+                    for cat_ in (DeprecationWarning, PendingDeprecationWarning, FutureWarning):
+                        warnings.simplefilter("ignore", cat_)
+                    try:
+                        c = csep.load_catalog(path, type=fmt)
+                    except Warning as w:
+                        # the file loads only with warnings switched off: an observation about the environment, the
+                        # events are judged on the ordinary load
+                        _NOTES.append("load raises only under warnings-as-errors: " + type(w).__name__)
+                        c = None
+                if c is None:
+                    c = csep.load_catalog(path, type=fmt)
             else:
                 if how == "direct":
                     ev = rd(path)
@@ -710,6 +752,8 @@ def check_case(ctx, spec, tag, light=False):
     how = spec.get("how", "type")
     run.count("entry:" + how)
     got = _loaded(path, fmt, zone, how, spec.get("other"))
+    while _NOTES:
+        run.count("observed: " + _NOTES.pop())
     os.unlink(path)
     want = [[int(r["exp"][0])] + [Fraction(float(x)) for x in r["exp"][1:]] for r in recs]
     # direct oracle: one event per record, in order, fields as encoded
@@ -738,7 +782,7 @@ def check_case(ctx, spec, tag, light=False):
         # recursions are not tail calls); if even that is exhausted the comparison is skipped and said so
         _compare_text_model(ctx, case, got, _big_text_model(fmt, written), [(True if r.get("tie") else r.get("band")) for r in recs])
         return
-    t = ctx.drv.ask(f"c19_text {fmt} {written.encode('latin-1').hex()}")
+    t = ctx.drv.ask((f"c19_ndk_mw " if fmt == "ndk" else f"c19_text {fmt} ") + written.encode('latin-1').hex())
     if fmt == "jma-csv":
         j = ctx.drv.ask(req)                                  # exact model (what the theorems are about)
         i = ctx.drv.ask(req.replace("c19_jma ", "c19_jmaf ", 1))  # float path, compared bit for bit
@@ -754,7 +798,8 @@ def _big_text_model(fmt, written):
     def lim():
         resource.setrlimit(resource.RLIMIT_STACK, (resource.RLIM_INFINITY, resource.RLIM_INFINITY))
     try:
-        p = subprocess.run([DRIVER], input=f"c19_text {fmt} {written.encode('latin-1').hex()}\n", stdout=subprocess.PIPE,
+        p = subprocess.run([DRIVER], input=("c19_ndk_mw " if fmt == "ndk" else f"c19_text {fmt} ")
+                           + f"{written.encode('latin-1').hex()}\n", stdout=subprocess.PIPE,
                            stderr=subprocess.PIPE, text=True, preexec_fn=lim)
     except Exception:
         return "outside"
@@ -768,8 +813,19 @@ def _loose_ok(rule, got_t, model_t):
     return rule[0] <= got_t <= rule[1]
 
 
-def _parse_events(m):
-    return [[int(p.split("~")[0])] + [Fraction(x) for x in p.split("~")[1:]] for p in m[3:].split(";")] if m != "ok:" else []
+def _parse_events(m, fmt=None):
+    if m == "ok:":
+        return []
+    out = []
+    for p in m[3:].split(";"):
+        f = p.split("~")
+        if fmt == "ndk":      # c19_ndk_mw: the last field is the bit pattern of the model's Mw (real layer at Float)
+            import struct
+            out.append([int(f[0])] + [Fraction(x) for x in f[1:4]]
+                       + [Fraction(struct.unpack("<d", struct.pack("<Q", int(f[4])))[0])])
+        else:
+            out.append([int(f[0])] + [Fraction(x) for x in f[1:]])
+    return out
 
 
 def _compare_text_model(ctx, case, got, m, ties):
@@ -780,12 +836,10 @@ def _compare_text_model(ctx, case, got, m, ties):
         return
     ctx.run.count("text-model compared")
     if m.startswith("ok:"):
-        evs = _parse_events(m)
+        evs = _parse_events(m, fmt)     # ndk: Mw = 2/3 (log10 M0 - 9.1) computed by the model (Model/NdkMagnitude, Float)
         same = (not isinstance(got, str)) and len(got) == len(evs)
         if same:
             for k, (g, e) in enumerate(zip(got, evs)):
-                if fmt == "ndk":      # the model returns the scalar moment; Mw = 2/3 (log10 M0 - 9.1) is applied here
-                    e = e[:4] + [Fraction(2.0 / 3.0 * (math.log10(float(e[4])) - 9.1))]
                 if ties and ties[k] and _loose_ok(ties[k], g[0], e[0]):
                     e = [g[0]] + e[1:]
                 if not _same(fmt, g, e):
@@ -1194,7 +1248,7 @@ def run(run, rng, tier):
             for fn in sorted(os.listdir(cdir)):
                 if fn.endswith(".json"):
                     check_case(ctx, json.load(open(os.path.join(cdir, fn)))["spec"], "corpus-" + fn)
-        per = 640 if tier == "quick" else 12000   # round 5: 800 -> 640 (the two extra >2^16-record files took their time)
+        per = 560 if tier == "quick" else 12000   # rounds 5-6: 800 -> 560 (four >2^16-record files, more entry points)
         for fmt in FORMATS:
             for n in (1, 1, 2):                       # single-record files first (0-d array hazards)
                 check_case(ctx, GEN[fmt](rng, n), "small")
